@@ -57,6 +57,7 @@ type Block struct {
 	DtNs   int64  `json:"dt_ns"`
 	Steps  []Step `json:"steps"`
 	Export bool   `json:"export,omitempty"` // after Commit: export genesis, import into a fresh node, compare (C19)
+	Reimport bool `json:"reimport,omitempty"` // after Commit: the chain is restarted from its own exported genesis and continues on the new node
 }
 
 type Expect struct {
